@@ -554,7 +554,14 @@ pub uninterp spec fn into_bytes_view<T>(t: T) -> Seq<u8>;
 pub broadcast proof fn axiom_into_bytes_view_slice(d: &[u8])
     ensures #[trigger] into_bytes_view(d) == d@ {}
 
-pub broadcast group vx_axioms { axiom_cow_deref_bytes, axiom_into_bytes_view_slice }
+pub broadcast proof fn ax_enc_be_len(v: nat, n: nat)
+    ensures #[trigger] enc_be(v, n).len() == n
+{ lemma_enc_be_len(v, n); }
+pub broadcast proof fn ax_run_len(ls: Seq<Seq<u8>>)
+    ensures #[trigger] run(ls).len() == wl(ls), wl(ls) >= 0
+{ lemma_run_len(ls); }
+
+pub broadcast group vx_axioms { axiom_cow_deref_bytes, axiom_into_bytes_view_slice, ax_enc_be_len, ax_run_len }
 
 #[verifier::external_body]
 pub fn fmt_error() -> std::fmt::Error { std::fmt::Error }
